@@ -71,7 +71,8 @@ class C08(object):
     required_counters = ('builds.compared', 'builds.compared_exactly', 'orders.distinct',
                          'zone_queried_during_construction.cases', 'parameter_chain_across_sectors.cases', 'two_markets_household_buyer_nondefault_codes.cases',
                          'profitable_firm_sharing_its_market_with_an_importer.cases',
-                         'households_sharing_one_portfolio_rule_object.cases')
+                         'households_sharing_one_portfolio_rule_object.cases',
+                         'ownerless_firm_next_to_a_region_with_capitalists.cases')
 
     def n_cases(self, tier):
         return 12 if tier == 'quick' else 30 + 270
@@ -98,6 +99,13 @@ class C08(object):
             sp2 = M.gen_spec(rng, n_zones=2, ext=True, allow_fed=False, maxtime=rng.randint(3, 4))
             if M.force_import_into_market_of_profitable_firm(rng, sp2):
                 spec = sp2
+        ownerless = False
+        if idx % 6 == 4:
+            # regions of one currency zone: one with capitalists and a profitable firm, the others with a profitable firm only
+            sp4 = M.gen_federation_with_an_ownerless_firm(rng, maxtime=rng.randint(3, 4))
+            if sp4 is not None:
+                spec = sp4
+                ownerless = True
         if idx % 6 == 2:
             # household and capitalists of one country hand the SAME portfolio rule object to the library when they are declared
             sp3 = M.gen_spec(rng, n_zones=1, allow_fed=False, maxtime=rng.randint(3, 4))
@@ -108,7 +116,7 @@ class C08(object):
             # two markets with prefix-related codes in which government AND household buy, a non-default labour code
             import random as _r2
             codes = M.force_two_markets_with_household_buyer(_r2.Random('two_markets:%d:%d' % (idx, rng.getrandbits(20))), spec)
-        return {'kind': 'orders', 'codes': codes, 'spec': spec, 'order_seeds': [rng.getrandbits(30) for _ in range(n)],
+        return {'kind': 'orders', 'codes': codes, 'spec': spec, 'ownerless_firm_next_to_a_region_with_capitalists': ownerless, 'order_seeds': [rng.getrandbits(30) for _ in range(n)],
                 'ext_first': [rng.random() < 0.5 for _ in range(n)],
                 # the public zone API (GetSectors / LookupSector) is used while the sectors are being declared
                 'query_zone': idx % 2 == 0}
@@ -128,6 +136,8 @@ class C08(object):
         if any(c.get('cap') and c['firm']['form'] == 'fixed' and any(i['market'] == c['key'] for i in spec['imports'])
                for z in spec['zones'] for c in z['countries'] if c['role'] != 'central'):
             rec.count('profitable_firm_sharing_its_market_with_an_importer.cases')
+        if case.get('ownerless_firm_next_to_a_region_with_capitalists'):
+            rec.count('ownerless_firm_next_to_a_region_with_capitalists.cases')
         base = M.build(spec, query_zone=qz, codes=codes)
         if getattr(base, 'weightings_reused', 0):
             rec.count('households_sharing_one_portfolio_rule_object.cases')
